@@ -293,7 +293,8 @@ pub fn strategy() -> impl proptest::strategy::Strategy<Value = SockCase> {
 #[derive(Clone, Debug, Serialize, Deserialize, PartialEq)]
 pub struct DupStreamCase {
     /// 0 good client (connect, one byte echoed), 1 connect polled once and dropped, 2 connect then drop
-    /// the stream at once, 3 connect with a 0-byte pipe and go away
+    /// the stream at once, 3 connect with a 0-byte pipe and go away, 4 / 5 connect with a pipe size of
+    /// usize::MAX / 2^63 + 1 and go away
     pub ops: Vec<u8>,
 }
 
@@ -347,7 +348,7 @@ impl Engine for DupStreamEngine {
                     }
                 }
                 for (i, op) in ops.iter().enumerate() {
-                    match op % 4 {
+                    match op % 6 {
                         0 => {
                             if let Err(e) = good(&client).await {
                                 return Some(format!("well-behaved client #{i} was not served: {e} (listener stream ended: {})", ended.load(std::sync::atomic::Ordering::SeqCst)));
@@ -365,9 +366,17 @@ impl Engine for DupStreamEngine {
                                 return Some(format!("client #{i}'s connect got no answer within 5 virtual seconds (listener stream ended: {})", ended.load(std::sync::atomic::Ordering::SeqCst)));
                             }
                         },
-                        _ => {
+                        3 => {
                             let _ = tokio::time::timeout(Duration::from_millis(2), client.connect(0)).await;
                         }
+                        // "no limit" spelled as the largest size, or a size just above half of the range
+                        k => match tokio::time::timeout(Duration::from_secs(5), client.connect(if k == 4 { usize::MAX } else { (1usize << 63) + 1 })).await {
+                            Ok(Ok(s)) => drop(s),
+                            Ok(Err(_)) => {}
+                            Err(_) => {
+                                return Some(format!("client #{i}'s connect (huge pipe size) got no answer within 5 virtual seconds (listener stream ended: {})", ended.load(std::sync::atomic::Ordering::SeqCst)));
+                            }
+                        },
                     }
                     tokio::task::yield_now().await;
                 }
@@ -407,7 +416,7 @@ impl Engine for DupStreamEngine {
 
 pub fn dupstream_strategy() -> impl proptest::strategy::Strategy<Value = DupStreamCase> {
     use proptest::prelude::*;
-    proptest::collection::vec(prop_oneof![2 => Just(0u8), 3 => Just(1u8), 1 => Just(2u8), 1 => Just(3u8)], 1..8).prop_map(|ops| DupStreamCase { ops })
+    proptest::collection::vec(prop_oneof![2 => Just(0u8), 3 => Just(1u8), 1 => Just(2u8), 1 => Just(3u8), 1 => Just(4u8), 1 => Just(5u8)], 1..8).prop_map(|ops| DupStreamCase { ops })
 }
 
 // ------------------------------------------------------------------------------------------------
